@@ -180,7 +180,7 @@ static const op_t OPS[] = {
 
 /* ------------------------------------------------------------------ policies */
 enum { POL_DENY, POL_ALLOW, POL_REWRITE };
-typedef struct { int rd, wr; char rd_to[16], wr_to[16]; } policy_t;
+typedef struct { int rd, wr; char rd_to[16], wr_to[16]; const char *reenter; } policy_t;
 
 static void set_pol (const char *k, int mode, const char *to) {
   push_constant_string (k);
@@ -390,6 +390,16 @@ static void check_mediated (const job_t *j, const fs_rec *r, const char *x, int 
   long upto = r->seq; if (ml && upto > ml->size) upto = ml->size;
   int any_approval = 0, path_match_readonly = 0, path_match_wrongname = 0, path_match_wrongcaller = 0;
   const char *want_caller = (op->kind == K_CALL) ? "/c15/t" : 0;
+  /* whose access is this?  Between the master's "reenter_begin" and "reenter_end" marks the libc call belongs to a
+     file efun the master itself made while deciding; everything else belongs to the efun under test.  An access must
+     be approved for its own caller: what the master allowed itself does not cover the efun that is waiting. */
+  int nested = 0;
+  for (long i = 0; ml && i < upto; i++) {
+    svalue_t *e = &ml->item[i];
+    if (e->type != T_ARRAY || e->u.arr->size < 1 || e->u.arr->item[0].type != T_STRING) continue;
+    if (!strcmp (e->u.arr->item[0].u.string, "reenter_begin")) nested++;
+    else if (!strcmp (e->u.arr->item[0].u.string, "reenter_end")) nested--;
+  }
   /* pass 1: list approvals */
   for (long i = 0; ml && i < upto; i++) {
     svalue_t *e = &ml->item[i];
@@ -417,6 +427,13 @@ static void check_mediated (const job_t *j, const fs_rec *r, const char *x, int 
     const char *caller = e->u.arr->item[2].type == T_STRING ? e->u.arr->item[2].u.string : "";
     int name_ok = word_in (w ? op->wr_names : op->rd_names, fnname);
     int caller_ok = want_caller ? !strcmp (caller, want_caller) : (U && !strncmp (caller, "/user", 5));
+    if (nested > 0) {           /* the master's own access: approved by its own (inner) question, about exactly that path */
+      if (strcmp (caller, "/master")) continue;
+      if (!(!strcmp (x, a) || dir_family_ok (a, x))) continue;
+      if (needs_write && !w) { path_match_readonly = 1; continue; }
+      return;
+    }
+    if (!strcmp (caller, "/master")) continue;   /* an inner approval says nothing about the waiting efun */
     /* does x derive from a? */
     int m = 0;
     char a2[FS_PATHMAX];
@@ -513,6 +530,9 @@ static int fault_filter (const char *fn) { return strcmp (fn, "fstat") && strcmp
 static void do_job (const job_t *j) {
   set_pol ("valid_read", j->pol.rd, j->pol.rd_to);
   set_pol ("valid_write", j->pol.wr, j->pol.wr_to);
+  push_constant_string ("reenter");
+  if (j->pol.reenter) copy_and_push_string (j->pol.reenter); else push_number (0);
+  safe_apply_master_ob ("set_policy", 2);
   if (j->op->kind == K_ED_DEAD) set_pol_str ("ed_save_name", j->p);       /* isolated: never seen by later elements */
   safe_apply_master_ob ("clear_mlog", 0);
   safe_apply_master_ob ("clear_errors", 0);
@@ -563,6 +583,9 @@ static const char *INPUTS[] = { "aa", "/a/a", "a" };
 static const char *FPATHS[] = { "aa", "/a/a", "aaa", "a", "a.a", "a/aa/a", ".a/a" };
 #define NFP 7
 #define NFK 20
+/* part "reentrant": the master's valid_read/valid_write do file I/O themselves before approving with a number */
+static const char *RVAR[] = { "read_file:aa", "file_size:a.a", "get_dir:a/", "write_file:mw", "read_bytes:.a/a", "same" };
+#define NRV 6
 #define NFE 10         /* 0: EIO at k; 1: EXDEV at k; 2..9: EXDEV at k and EIO at k+1..k+8 */
 
 static void mk_path (long pidx, int lng, char *out) {
@@ -601,6 +624,18 @@ static int decode (long idx, job_t *j, char *pbuf, char *desc, size_t dl) {
               e >= 2 ? " and a later one with EIO" : "");
     if (only_op && strcmp (only_op, j->op->name)) return 0;
     if (e >= 1 && j->op->family != F_TWO) return 0;       /* EXDEV only means something to rename/link */
+    return 1;
+  }
+  if (!strcmp (part, "reentrant")) {
+    int v = (int) (idx % NRV); idx /= NRV;
+    int op = (int) (idx % NOPS); idx /= NOPS;
+    j->op = &OPS[op];
+    strcpy (pbuf, FPATHS[idx % NFP]); j->p = pbuf;
+    j->pol.rd = j->pol.wr = POL_ALLOW;
+    j->pol.reenter = RVAR[v];
+    snprintf (desc, dl, "op=%s read=allow write=allow path=\"%s\" master re-enters with %s before answering", j->op->name, pbuf, RVAR[v]);
+    if (!j->op->mediated || j->op->kind == K_ED_DEAD) return 0;
+    if (only_op && strcmp (only_op, j->op->name)) return 0;
     return 1;
   }
   if (!strcmp (part, "rewrite")) {
@@ -766,6 +801,7 @@ int main (int argc, char **argv) {
   long total;
   if (!strcmp (part, "paths")) total = NP * 2 * NOPS * 4;
   else if (!strcmp (part, "rewrite")) total = NR * NIN * NOPS * 3;
+  else if (!strcmp (part, "reentrant")) total = (long) NFP * NOPS * NRV;
   else if (!strcmp (part, "faults")) total = (long) NFP * NOPS * NFK * NFE;
   else if (!strcmp (part, "legal")) total = 1025;
   else if (!strcmp (part, "inventory")) { load_inventory (vx_opt ("inv", "")); total = n_inv ? n_inv : 1; }
